@@ -2,3 +2,5 @@
 import AioMySensors.Model
 import AioMySensors.Properties.C01
 import AioMySensors.Properties.C02
+import AioMySensors.Properties.C03
+import AioMySensors.Properties.C18
